@@ -432,6 +432,9 @@ def gen_transport(repo, out):
     t.class_mode = True
     t.function("Qij", FnCfg("Qij_class", qij_params, ret="qclass", extra_env={"__raise__": ("CUnknown", "qclass")}))
     t.class_mode = False
+    # ---- right-hand sides and final formulae of viscosity / DTi / Dij / electrical_conductivity (index form) ----
+    import finalforms
+    t.out.extend(finalforms.FF(t).all())
     write_if_changed(os.path.join(out, "GenTransport.v"), t.render(HEADER.format(extra=" GenSpecies RefEnergy TransportLib"), "GenTransport"))
 
 
